@@ -232,8 +232,8 @@ func c16CheckValue(r *core.Run, ty *simType, v reflect.Value, first bool) ([]byt
 		r.NonTrivial = true
 	}
 	maxSize := 2 << 10
-	if r.Tier == "thorough" {
-		maxSize = 16 << 10
+	if r.Tier == "thorough" || size >= 16380 {
+		maxSize = 20 << 10
 	}
 	if size > maxSize {
 		r.Probe("unencodable-skipped")
@@ -276,8 +276,14 @@ func c16CheckValue(r *core.Run, ty *simType, v reflect.Value, first bool) ([]byt
 	// (checked once per value on Marshal's output, which the per-length loop
 	// below compares MarshalTo's output with)
 	if ty.rt.Kind() == reflect.Struct && !protoOpaque(ty.rt) {
-		if _, ok := ref.ParseTree(want, ref.SchemaOf(ty.rt, protoOpaque), 0); !ok {
+		tree, ok := ref.ParseTree(want, ref.SchemaOf(ty.rt, protoOpaque), 0)
+		if !ok {
 			r.Fail("wrong-bytes", "encoding-not-well-formed", "the %d bytes that Marshal / MarshalTo produce for this value of %s are not a well-formed protobuf message: %x", len(want), ty.name, clip(want, 120))
+			return want, true
+		}
+		// ... "of v": every field in it carries a number the type declares
+		if num, found := tree.Undeclared(); found {
+			r.Fail("wrong-bytes", "encoding-has-undeclared-field-number", "the %d bytes that Marshal / MarshalTo produce for this value of %s carry field number %d, which the type does not declare at that level: %x", len(want), ty.name, num, clip(want, 120))
 			return want, true
 		}
 		r.Probe("well-formedness-checked(reference parser)")
